@@ -1082,6 +1082,9 @@ func (c *compiler) Stmt(stmt ast.Stmt) {
 			panic("compile: can't set context in AugAssign")
 		}
 		// FIXME untidy modifying the ast temporarily!
+		// Put back the context the parser gave the target when done
+		// (also when compiling the target panics with a SyntaxError)
+		defer setctx.SetCtx(ast.Store)
 		setctx.SetCtx(ast.AugLoad)
 		c.Expr(node.Target)
 		c.Expr(node.Value)
